@@ -29,6 +29,7 @@ def run(ctx):
     mutators(ctx, P)
     header_freshness(ctx, P)
     version_conditional_fields(ctx, P)
+    mpi_padding_order(ctx, P)
     stored_length_encoding(ctx, P)
     s2k_usage_tables(ctx, P)
     tag_tables(ctx, P)
@@ -300,6 +301,30 @@ def version_conditional_fields(ctx, P):
         wg = [i for i, t in wb.switches() if has_origin(wb.switch_origins(i), r'param:3$') and has_origin(wb.switch_origins(i), V6)]
         ctx.check(P + ':S05-10:version-tests-agree', 'R-sib', 'serialiser, length query and parser test the key version at the same three places (cumulative length, AEAD arm, CFB arm)',
                   len(lg) == len(wg) == len(pg) == 3, function=lb.path, table=dict(write_len=len(lg), to_writer=len(wg), parser=len(pg)))
+
+
+def mpi_padding_order(ctx, P):
+    """An MPI arrives big endian with its leading zero octets stripped.  Code that needs the fixed-width little-endian scalar has to
+    restore the width FIRST (left-pad the big-endian form) and reverse afterwards; padding the already reversed octets puts the
+    zeros at the wrong end and changes the value (and the re-encoded MPI)."""
+    n = 0
+    for p, r in sorted(ctx.f.bodies.items()):
+        if '::tests::' in p or r['kind'] == 'Closure':
+            continue
+        b = ctx.wrap(r)
+        pads = b.calls(r'plain_secret::pad_key$')
+        if not pads:
+            continue
+        revs = call_blocks(b, r'Iterator::rev$|slice::<impl \[T\]>::reverse$|\[T\]::reverse$')
+        if not revs:
+            continue
+        n += 1
+        ctx.functions.add(p)
+        bad = [i for i, t in pads if has_origin(b.operand_origins(t['args'][0]), r'call:.*Iterator::rev$')]
+        ctx.check('%s:S05-11:pad-before-reverse:%s' % (P, p), 'R-seq', '%s restores the fixed width of the big-endian MPI before it reverses the octets' % p.split('::')[-1],
+                  not bad, function=p, site=site(b, bad[0]) if bad else None,
+                  missing=None if not bad else 'pad_key is applied to the reversed octets: a scalar whose most significant octet is zero is read back shifted by one octet')
+    ctx.floor(P + ':S05-11:floor', 'functions that both pad and reverse MPI octets', n, 1)
 
 
 def stored_length_encoding(ctx, P):
